@@ -9,6 +9,7 @@ from vcheck import Check, Failure, run, build_harness
 MPIEXEC = ["mpiexec", "--allow-run-as-root", "--oversubscribe"]
 USER_TAGS = (7, 8, 9)
 HDR = 24
+EAGER = 3900      # safely below btl_vader_eager_limit (4096 including MPI's headers)
 
 
 def fnv(lines):
@@ -45,9 +46,9 @@ def parse_case(case):
 class C14(Check):
     id = "C14"
     prop_file = "theories/Properties/Properties_C14.v"
-    theorems = ("C14_am_exactly_once_intact", "C14_am_quiescent_all_delivered", "C14_am_no_duplicate",
-                "C14_am_fifo_refuted", "C14_window_conserved", "C14_dynamic_conserved", "C14_pending_installed",
-                "C14_next_tag_valid", "C14_next_tag_distinct")
+    theorems = ("C14_am_conservation", "C14_am_exactly_once_intact", "C14_am_no_duplicate", "C14_am_quiescent_all_delivered",
+                "C14_am_fifo_refuted", "C14_window_conserved", "C14_windows_invariant", "C14_dynamic_conserved",
+                "C14_dynamic_run", "C14_pending_installed", "C14_next_tag_valid", "C14_next_tag_distinct")
     comp = "ce"
     extract_file = "theories/Extract/Extract_CE.v"
     extracted = ("ce",)
@@ -55,18 +56,21 @@ class C14(Check):
     link_parsec = True
     harness_ldflags = ("-rdynamic",)
     level_text = ("Partial. Proved for every oracle behaviour (any interleaving of sends, MPI matchings and MPI_Testsome reports, any "
-                  "subset reported, any window sizes 1 <= tested <= posted): every active message handed to a tag's callback is a "
-                  "message that was sent, with the bytes sent, never twice, and sent = delivered + matched-not-yet-served + in flight; "
-                  "the tested window of a tag always holds distinct posted receives and is full after a refill, nothing is dropped or "
-                  "duplicated by the packing; the dynamic region and the two pending FIFOs conserve the set of dynamic requests for any "
-                  "ascending report, and after a progress pass a free slot implies nothing installable is waiting; next_tag stays in "
-                  "[0, MAX-k] and floor(MAX/k) consecutive allocations are disjoint.  Per-(source, tag) FIFO delivery is refuted on the "
-                  "model when MPI reports completions of one window out of order (replayed on the real code).  Not proved: eventual "
-                  "delivery (no stall of a matched receive outside the window; explored exhaustively for posted <= 6 only), FIFO under "
-                  "in-order reports, the put/get handshake across two processes.  The model is tied to the code by replaying, in the "
-                  "extracted model, the MPI_Testsome results and put/get calls recorded on 2..4 real ranks and comparing every request "
-                  "array MPI_Testsome was given (names of the persistent and dynamic requests slot by slot), the tags handed out, and "
-                  "the multiset of delivered messages / one-sided completions.")
+                  "subset reported, any window sizes): every active message handed to a tag's callback is a message that was sent, "
+                  "with the bytes sent, never twice, and sent = delivered + matched-not-yet-served + in flight; the tested window of "
+                  "a tag always holds distinct posted receives and is full after a refill, nothing is dropped or duplicated by the "
+                  "packing (1 <= tested <= posted); the dynamic region and the two pending FIFOs conserve the set of dynamic requests "
+                  "for any ascending report and any callback behaviour, the region has no hole after compaction, and after a progress "
+                  "pass a free slot implies nothing installable is waiting; next_tag stays in [0, MAX-k] and floor(MAX/k) consecutive "
+                  "allocations are disjoint.  Per-(source, tag) FIFO delivery is refuted on the model (one completion of another "
+                  "source reported late desynchronises the window from MPI's matching order for good) and replayed on the real code "
+                  "(finding fifo-desync).  Not proved: eventual delivery (no stall of a matched receive outside the window; argued in "
+                  "notes/findings/C14-fifo.md, explored exhaustively for posted <= 6), FIFO under in-order reports, the put/get "
+                  "handshake across two processes (its tag hypothesis is false when a get and a put move data the same way: finding "
+                  "getput-cross).  The model is tied to the code by replaying, in the extracted model, the MPI_Testsome results and "
+                  "put/get calls recorded on 2..4 real ranks and comparing every request array MPI_Testsome was given (persistent and "
+                  "dynamic requests named slot by slot), the tags handed out, and the multiset of delivered messages / one-sided "
+                  "completions; next_tag is swept directly.")
     level_note = ("MPI is an assumption: per (source, communicator, tag) non-overtaking, receives matched in the order they were started "
                   "(MPI_Startall assumed to start in array order, as Open MPI does), MPI_Testsome returning ascending indices.  "
                   "The harness observes and thins MPI_Testsome through the MPI profiling interface (PMPI); nothing in /repo is changed.")
@@ -75,7 +79,8 @@ class C14(Check):
     rule = ("'tag MAX v0 k n': n calls of the real static next_tag(k) (both the plain and the CAS branch) vs the model; "
             "'ce k P T D R ub hseed hide maxlen | script...': one mpiexec run of k ranks, window parameters P/T/D/R from 1 up, "
             "every rank sends seeded streams of AMs (sizes 24..maxlen) on 3 tags to random peers and issues put/get of 0..4 MiB, "
-            "some from inside callbacks; hide/1000 of the completed slots are withheld per MPI_Testsome call.  "
+            "some from inside callbacks; hide/1000 of the completed slots are withheld per MPI_Testsome call (hide = -1: exactly one "
+            "completion, of another source, is withheld once).  "
             "Non-trivial = a ce case with at least 20 AMs or a tag case with a roll-over; distinct = distinct case text")
     trusted = ("PMPI interposition layer of harness/h_ce.c (names requests, thins MPI_Testsome results, never reorders or drops them)",
                "Open MPI 4.1.4 as the MPI implementation under the engine",
@@ -97,7 +102,10 @@ class C14(Check):
         return fails
 
     # ------------------------------------------------------------------
-    def gen_ce(self, r, k, P, T, D, R, ub, hide, nam, nput, nget, maxlen, big=False):
+    def gen_ce(self, r, k, P, T, D, R, ub, hide, nam, nput, nget, maxlen, big=False, burst=False):
+        # send_am is a blocking MPI_Send: two processes that send each other messages above MPI's eager limit while
+        # all posted receives of the tag are used up block for ever (an unsafe MPI program, outside the property).
+        # Only rank 0 sends AMs above EAGER; everybody else stays below.
         # one mechanism per data direction x->y: put by x, or get by y (see finding getput-cross)
         mech = {}
         for x in range(k):
@@ -108,12 +116,18 @@ class C14(Check):
         for me in range(k):
             items = ["a"] * nam + ["o"] * (nput + nget)
             r.shuffle(items)
+            if burst:
+                # the one-sided operations back to back (no progress in between): fills the array and the pending FIFOs
+                items = ["a"] * nam
+                at = r.below(nam + 1)
+                items[at:at] = ["O"] * (nput + nget)
             toks = []
             for it in items:
                 dst = r.pick([x for x in range(k) if x != me])
-                d = "!" if r.chance(1, 5) else ""
+                d = "!" if (r.chance(1, 5) and it != "O") else ""
                 if it == "a":
-                    size = r.pick([HDR, HDR + 1, 64, maxlen, maxlen - 1, r.range(HDR, maxlen), r.range(HDR, min(maxlen, 300))])
+                    lim = maxlen if me == 0 else min(maxlen, EAGER)
+                    size = r.pick([HDR, HDR + 1, 64, lim, lim - 1, r.range(HDR, lim), r.range(HDR, min(lim, 300))])
                     toks.append("a%d:%d:%d%s" % (r.pick(USER_TAGS), dst, size, d))
                 else:
                     size = r.pick([0, 1, 4095, 4096, 4097, 65535, 65536, 65537, r.range(0, 70000), r.range(0, 1 << 20)])
@@ -128,7 +142,7 @@ class C14(Check):
                         dst = r.pick(cand)
                         kinds = [kd for kd in "pg" if (kd == "p" and mech[(me, dst)] == "p") or (kd == "g" and mech[(dst, me)] == "g")]
                     toks.append("%s%d:%d%s" % (r.pick(kinds), dst, size, d))
-                if r.chance(1, 3):
+                if r.chance(1, 3) and it != "O":
                     toks.append("w%d" % r.range(1, 3))
             scripts.append(" ".join(toks))
         return "ce %d %d %d %d %d %d %d %d %d | %s" % (k, P, T, D, R, ub, r.below(1 << 30), hide, maxlen, " | ".join(scripts))
@@ -153,10 +167,10 @@ class C14(Check):
         reps = 1 if q else 6
         for _ in range(reps):
             out.append(self.gen_ce(r, 2, 6, 1, 30, 15, -1, 0, am(120), 8, 8, 4096, big=True))      # the defaults
-            out.append(self.gen_ce(r, 3, 1, 1, 2, 1, -1, 0, am(60), 6, 6, 1024))                   # minimal windows, pending FIFOs
-            out.append(self.gen_ce(r, 4, 3, 2, 3, 1, -1, 0, am(50), 5, 5, 2048))
-            out.append(self.gen_ce(r, 3, 4, 1, 3, 2, -1, r.range(150, 450), am(80), 5, 5, 512))    # thinned Testsome, window of 1
-            out.append(self.gen_ce(r, 2, 5, 5, 4, 2, -1, 0, am(150), 8, 8, 8192))                  # tested = posted
+            out.append(self.gen_ce(r, 3, 1, 1, 2, 1, -1, 0, am(60), 6, 6, 1024, burst=True))                   # minimal windows, pending FIFOs
+            out.append(self.gen_ce(r, 4, 3, 2, 3, 1, -1, 0, am(50), 5, 5, 2048, burst=r.chance(1, 2)))
+            out.append(self.gen_ce(r, 3, 4, 1, 3, 2, -1, r.range(150, 450), am(80), 6, 6, 512, burst=True))    # thinned Testsome, window of 1
+            out.append(self.gen_ce(r, 2, 5, 5, 4, 2, -1, 0, am(150), 8, 8, 65536))                 # tested = posted, rank 0 sends AMs above the eager limit
             out.append(self.gen_ce(r, 3, 4, r.range(2, 3), 4, 2, -1, r.range(150, 350), am(70), 4, 4, 512))  # out-of-order reports
             out.append(self.gen_ce(r, 2, 3, 2, 6, 3, r.range(2, 5), 0, am(100), 2, 0, 4096))        # tag roll-over
             k = r.range(2, 4)
@@ -191,7 +205,7 @@ class C14(Check):
         k = int(case.split()[1])
         prefix = os.path.join(outdir, str(i))
         cmd = MPIEXEC + ["-n", str(k), self.hbin(), casefile, prefix, str(i)]
-        rc, o, e = run(cmd, timeout=200)
+        rc, o, e = run(cmd, timeout=300)
         ranks = []
         for r in range(k):
             try:
@@ -236,6 +250,22 @@ class C14(Check):
             order.append("r%d:%s" % (r, "".join(" " + x for x in ordr)))
         return " || ".join(parts) + " ## " + " ; ".join(order)
 
+    @staticmethod
+    def fifo_deviations(obs):
+        """observation only: (rank, tag, source, message number, delivered after number) of per-source order deviations"""
+        out = []
+        for part in obs.partition(" ## ")[2].split(" ; "):
+            m = re.match(r"r(\d+):(.*)", part.strip())
+            if not m:
+                continue
+            last = {}
+            for x in m.group(2).split():
+                tag, src, seq, pseq = (int(y) for y in x.split("."))
+                if seq != last.get((tag, src), -1) + 1:
+                    out.append((int(m.group(1)), tag, src, seq, last.get((tag, src), -1)))
+                last[(tag, src)] = seq
+        return out
+
     def run_impl(self, casefile, n):
         cases = [l.rstrip("\n") for l in open(casefile) if l.strip() and not l.startswith("#")]
         outdir = casefile + ".d"
@@ -252,11 +282,25 @@ class C14(Check):
         def job(ic):
             i, c = ic
             rc, err, ranks = self.one_run(casefile, i, c, outdir)
+            if rc == 124 and all(x is None for x in ranks):
+                # the launcher itself ran out of time before any rank could write (overloaded machine): not an observation
+                rc, err, ranks = self.one_run(casefile, i, c, outdir)
             return i, self.merge(c, rc, err, ranks)
-        with ThreadPoolExecutor(max_workers=3) as ex:
+        with ThreadPoolExecutor(max_workers=4) as ex:
             for i, line in ex.map(job, ce):
                 lines[i] = line
         self._impl_lines = lines
+        dev = []
+        for c, l in zip(cases, lines):
+            if c.startswith("ce ") and l:
+                d = self.fifo_deviations(l)
+                if d:
+                    w = c.split()
+                    dev.append({"case_PTDR_hide": " ".join(w[2:6] + [w[8]]), "deviations": len(d),
+                                "first": "rank %d tag %d source %d: #%d after #%d" % d[0]})
+        self.cov["fifo_deviations"] = {
+            "note": "observation, not judged: per-(source, tag) delivery order is not part of C14's statement; see "
+                    "C14_am_fifo_refuted and notes/findings/C14-fifo.md", "runs_with_deviation": len(dev), "runs": dev[:10]}
         return lines
 
     def run_model(self, casefile, n):
@@ -265,7 +309,10 @@ class C14(Check):
         out = []
         for m, a in zip(lines, impl):
             # the delivery order is an observation the model does not predict: carried over for the oracle
-            if a and " ## " in a and not m.startswith("<"):
+            if m.startswith("<undefined"):
+                # outside the tag-distinctness hypothesis of the model: nothing is predicted, the oracle alone judges
+                m = a
+            elif a and " ## " in a and not m.startswith("<"):
                 m = m + " ## " + a.split(" ## ", 1)[1]
             out.append(m)
         return out
@@ -355,19 +402,10 @@ class C14(Check):
                     if xs[a] == xs[b]:
                         return "rank %d: data tag %d handed out twice within %d allocations" % (r, xs[a], mx)
         if late:
+            # the rank that gave up first names what is missing; the others were killed by mpiexec
+            late.sort(key=lambda x: (0 if "TIMEOUT" in x else 1 if "never" in x else 2))
             return late[0]
-        # per (source, tag) FIFO, from the delivery order
-        for part in order.split(" ; "):
-            m = re.match(r"r(\d+):(.*)", part.strip())
-            if not m:
-                continue
-            last = {}
-            for x in m.group(2).split():
-                tag, src, seq, pseq = (int(y) for y in x.split("."))
-                if seq != last.get((tag, src), -1) + 1:
-                    return "rank %s: AM tag %d from %d: message #%d delivered after #%d (per-source FIFO broken)" % (
-                        m.group(1), tag, src, seq, last.get((tag, src), -1))
-                last[(tag, src)] = seq
+        # per-(source, tag) FIFO is not part of C14's statement: deviations are recorded in the evidence (fifo_deviations), never judged
         return None
 
     def signature(self, case, obs):
@@ -381,13 +419,11 @@ class C14(Check):
             d = (o, t) if kind == "p" else (t, o)
             dirs.setdefault(d, set()).add(kind)
         cross = any(len(v) == 2 for v in dirs.values())
-        if "FIFO" in why:
-            return "fifo-ooo" if (c["hide"] > 0 and c["T"] >= 2) else "fifo"
         if cross and ("no result" in why or "one-sided" in why or "bytes/length" in why or "never" in why):
             return "getput-cross"
         for key, sig in (("twice", "dup"), ("other bytes", "corrupt"), ("never delivered", "am-lost"), ("never sent", "am-ghost"),
                          ("length", "am-length"), ("never fired", "os-lost"), ("bytes/length", "os-corrupt"),
-                         ("data tag", "tag"), ("no result", "abort"), ("TIMEOUT", "timeout")):
+                         ("data tag", "tag"), ("no result", "abort"), ("TIMEOUT", "timeout"), ("KILLED", "timeout")):
             if key in why:
                 return sig
         return "other"
